@@ -302,7 +302,7 @@ class CoopProcess:
             except SystemExit as e:
                 code = e.code if isinstance(e.code, int) else 1
             except BaseException as e:  # uncaught in the child: non-zero exit status
-                code = 1
+                code = -9 if type(e).__name__ == "WorkerKilled9" else 1
                 self.ctx.child_errors.append((self.name, repr(e)))
                 e.__traceback__ = None
             finally:
